@@ -324,6 +324,14 @@ def argument_cases():
     for d in (0, 1):
         for n in SIZES_EDGE:
             yield "args/setbuf", mk_socket(0) + [sysl("setsockopt", 0), "setbuf 0 %d %d" % (d, n), sysl("setsockopt", "e%d" % E.EINVAL), "setbuf 0 %d %d" % (d, n)]
+    # p_socket_new over the whole family x type x protocol grid (values inside and outside the enumerations; SEQPACKET / SCTP),
+    # with socket() succeeding and refusing; then the getters, a connect attempt and free
+    for fam in (2, 10, 1, 0, -1, 9999):
+        for typ in (1, 2, 3, 0, 4, -1):
+            for proto in (6, 17, 132, 0, -1, 999):
+                yield "args/new-grid", t_new(7) + ["new 0 %d %d %d" % (fam, typ, proto), "setto 0 3", sysl("close", 0), "free 0"]
+            yield "args/new-grid", [sysl("socket", "e%d" % E.EAFNOSUPPORT)] + ["new 0 %d %d 6" % (fam, typ), "setto 0 3", "free 0"]
+            yield "args/new-grid", [sysl("socket", "e%d" % E.EPROTONOSUPPORT)] + ["new 0 %d %d 132" % (fam, typ), "free 0"]
     # descriptor 0 is a descriptor
     for fd in (0, 1, 2, 1023, 1024, 4095):          # (the harness tracks close-on-exec for descriptors below 4096)
         yield "args/fd", t_new(fd) + ["new 0 2 1 6", sysl("poll", 1), sysl("recv", 1, d="aa"), "recv 0 4", sysl("close", 0), "close 0"]
